@@ -123,6 +123,15 @@ static uint64_t workload(int idx, uint64_t seed, struct tres* out) {
 
 /* ---------- mutex sections ---------- */
 
+/* back to the state a type object has when the process starts: nothing memoised, no class resolved.  Done only
+   while no other thread runs.  The threads of the next phase then perform the FIRST lookups of Lock / Start on Mutex
+   at the same moment, as the first threads of a fresh program would. */
+static void cold_type(var type) {
+  for (int i = 0; i < CELLO_CACHE_NUM; i++) { ((var*)type)[i] = NULL; }
+  struct Type* t = (struct Type*)type + CELLO_CACHE_NUM / 3 + 2;
+  for (; t->name != NULL; t++) { t->cls = NULL; }
+}
+
 static var the_mutex;
 static volatile long guarded_counter;       /* deliberately not atomic */
 static volatile int in_section;
@@ -250,6 +259,8 @@ static void one_trial(vh_rng* r, int nthreads) {
   memset(RES, 0, sizeof RES);
   guarded_counter = 0; in_section = 0;
   the_mutex = new_raw(Mutex);
+  cold_type(Mutex); cold_type(Function); cold_type(Thread);
+  vh_count("mutex_phases_started_with_cold_lookups");
   run_threads(nthreads, 1);
   long total = 0, overlaps = 0, contended = 0;
   for (int i = 0; i < nthreads; i++) { total += RES[i].sections; overlaps += RES[i].overlaps; contended += RES[i].trylock_fail; }
